@@ -340,7 +340,9 @@ func (s *SMF) Add(t Track) error {
 			s.log("delta: %v message: %s", ev.Delta, ev.Message)
 		}
 	}
-	s.Tracks = append(s.Tracks, t)
+	// without the spare capacity of the caller's slice: a later Add or Close on s.Tracks[i] must not
+	// write into the events of another track that was added from the same, extended variable
+	s.Tracks = append(s.Tracks, t[:len(t):len(t)])
 	if len(s.Tracks) > 1 && s.format == 0 {
 		s.format = 1
 	}
